@@ -377,6 +377,72 @@ fn run_batch(cases: &mut [Case]) -> Vec<Judged> {
     res
 }
 
+/// Quota phase: the tenant is at (or near) its quota, so some creations are REFUSED. A refused
+/// operation was never acknowledged and must leave nothing for recovery to find. Every history up
+/// to `maxlen` over creations / deletions on two ids, quota of one node and one relationship, clean
+/// shutdown, reopen, recover. In-process (no crash): the question is what a refusal leaves behind.
+fn quota_phase(ctx: &Ctx, maxlen: usize) -> (u64, u64, u64) {
+    use samyama::persistence::ResourceQuotas;
+    let alpha = [Op::CreateNode(1), Op::CreateNode(2), Op::CreateEdge(1), Op::CreateEdge(2), Op::DeleteNode(1), Op::DeleteEdge(1)];
+    let hists: Vec<Vec<Op>> = odometer::sequences_upto(alpha.len(), maxlen).map(|s| s.iter().map(|&i| alpha[i]).collect()).collect();
+    let results: Vec<(Vec<Op>, u64, Option<(String, String)>)> = hists
+        .par_iter()
+        .map(|h| {
+            let dir = fresh_dir();
+            let mut acked = G::default();
+            let mut refused = 0u64;
+            let r = guarded(|| -> Result<(), String> {
+                let pm = PersistenceManager::new(dir.join("db")).map_err(|e| format!("open: {e}"))?;
+                let mut q = ResourceQuotas::unlimited();
+                q.max_nodes = Some(1);
+                q.max_edges = Some(1);
+                if pm.tenants().update_quotas(TENANT, q.clone()).is_err() {
+                    pm.tenants().create_tenant(TENANT.to_string(), "C16".to_string(), Some(q)).map_err(|e| format!("create_tenant: {e}"))?;
+                }
+                for (i, op) in h.iter().enumerate() {
+                    match apply_impl(&pm, op, i as i64 + 1) {
+                        Ok(()) => acked.apply(op, i as i64 + 1, false),
+                        Err(_) => refused += 1,
+                    }
+                }
+                drop(pm);
+                Ok(())
+            });
+            let vio = match r {
+                Err(p) => Some(("quota:panic".to_string(), format!("history {h:?} panicked: {p}"))),
+                Ok(Err(e)) => Some(("quota:machinery".to_string(), e)),
+                Ok(Ok(())) => match recover_dir(&dir) {
+                    Err(e) => Some(("quota:recover_error".to_string(), format!("history {h:?}: {e}"))),
+                    Ok((g, _)) => {
+                        if g != acked {
+                            Some(("quota:refused_operation_left_something".to_string(), format!("history {h:?} under a quota of 1 node / 1 relationship ({refused} operation(s) refused): recovered {:?}, the acknowledged operations give {:?}", g, acked)))
+                        } else {
+                            None
+                        }
+                    }
+                },
+            };
+            let _ = std::fs::remove_dir_all(&dir);
+            (h.clone(), refused, vio)
+        })
+        .collect();
+    let (mut n, mut with_refusal, mut nvio) = (0u64, 0u64, 0u64);
+    for (h, refused, vio) in results {
+        n += 1;
+        if refused > 0 {
+            with_refusal += 1;
+        }
+        if let Some((sig, msg)) = vio {
+            if sig == "quota:machinery" {
+                ctx.machinery(&msg);
+            }
+            nvio += 1;
+            ctx.violation(&sig, msg, json!({"kind": "quota", "ops": h.iter().map(|o| format!("{:?}", o)).collect::<Vec<_>>()}));
+        }
+    }
+    (n, with_refusal, nvio)
+}
+
 fn main() {
     if subproc::worker_arg().is_some() {
         subproc::worker_main(|line| child_case(line));
@@ -448,6 +514,9 @@ fn main() {
                 ctx.violation(sig, msg.clone(), c.witness());
             }
         }
+        let (qn, qref, _qv) = quota_phase(ctx, ctx.tier.pick(3, 4));
+        ctx.cov("quota_phase", json!({"histories": qn, "histories_with_a_refused_operation": qref, "quota": "1 node, 1 relationship", "alphabet": "CreateNode{1,2} CreateEdge{1,2} DeleteNode(1) DeleteEdge(1)"}));
+        ctx.assume("quota phase: an operation refused by the tenant's quota is not acknowledged and must leave nothing that recovery returns");
         let total = all.len() as u64;
         ctx.cov("evaluations", total);
         ctx.cov("generator_cardinality", planned);
@@ -478,6 +547,12 @@ fn main() {
 fn replay(ctx: &Ctx, p: &Path) {
     let doc: Value = serde_json::from_str(&std::fs::read_to_string(p).expect("read replay")).expect("json");
     let w = &doc["witness"];
+    if w["kind"] == "quota" {
+        let len = w["ops"].as_array().map(|a| a.len()).unwrap_or(3);
+        let (n, r, v) = quota_phase(ctx, len);
+        println!("quota phase up to length {len}: {n} histories, {r} with a refused operation, {v} violating");
+        return;
+    }
     let ops: Vec<Op> = w["ops"].as_array().unwrap().iter().map(|o| op_parse(o.as_str().unwrap())).collect();
     let mut c = Case { ops, arm_point: w["arm_point"].as_u64().unwrap_or(0), arm_after: w["arm_after_op"].as_i64().unwrap_or(-1), label: w["crash_at"].as_str().unwrap_or("").to_string(), dir: fresh_dir() };
     println!("history {:?}, crash at {} (point #{}, after op {})", c.ops, c.label, c.arm_point, c.arm_after);
